@@ -921,3 +921,15 @@ class Program:
             env[name] = v
             out.append((name, v, node))
         return out
+
+
+def unpartial(prog, module, call):
+    """`f(x)` where the module binds `f = functools.partial(F, a, k=v)` read as the call `F(a, x, k=v)` it makes; None otherwise."""
+    if not (isinstance(call, ast.Call) and isinstance(call.func, ast.Name)):
+        return None
+    b = module.assigns.get(call.func.id) if module is not None and hasattr(module, "assigns") else None
+    if isinstance(b, ast.Call) and (_dotted(b.func) or "") in ("partial", "functools.partial") and b.args \
+            and not any(isinstance(a, ast.Starred) for a in b.args) and all(k.arg for k in b.keywords):
+        new = ast.Call(func=b.args[0], args=list(b.args[1:]) + list(call.args), keywords=list(b.keywords) + list(call.keywords))
+        return ast.copy_location(new, call)
+    return None
